@@ -29,6 +29,7 @@ pub struct CheckOpts {
     pub check_signature: bool,
     pub check_strings: bool,
     pub check_keyset: bool,
+    pub check_warnings: bool,
     pub null_fk: NullFkMode,
     /// D3 masked: do not compare keys whose value passes arguments through a reference chain
     pub default_listed: bool,
@@ -47,6 +48,7 @@ impl Default for CheckOpts {
             check_signature: true,
             check_strings: true,
             check_keyset: true,
+            check_warnings: true,
             null_fk: NullFkMode::AlongInherits,
             default_listed: true,
         }
@@ -69,6 +71,8 @@ pub struct ProjStats {
     pub plural_keys: u64,
     pub comp_depth_max: usize,
     pub expected_error_kinds: Vec<String>,
+    pub warnings_expected: u64,
+    pub silenced_absences: u64,
 }
 
 fn fail(sig: &str, detail: J) -> Failure {
@@ -116,6 +120,10 @@ pub fn expected_errors(p: &Project, sem: &Sem) -> Vec<ModelErr> {
                 }
             }
         }
+    }
+    // a subkey group in one locale and a value in another
+    if let Err(e) = model_key_warnings(p, false) {
+        errs.push(e);
     }
     // count-variable conflicts per accessible key (union over locales)
     for ns in p.ns_list() {
@@ -516,6 +524,38 @@ pub fn check_project(p: &Project, opts: &CheckOpts, dir: &Path, t: &mut Tape) ->
         }
     };
 
+    if opts.check_warnings {
+        use leptos_i18n_parser::parse_locales::warning::Warning;
+        let mut got: Vec<ModelWarning> = vec![];
+        for w in &loaded.warnings {
+            match w {
+                Warning::MissingKey { locale, key_path } => got.push((WarnKind::Missing, locale.name.to_string(), key_path.to_string())),
+                Warning::SurplusKey { locale, key_path } => got.push((WarnKind::Surplus, locale.name.to_string(), key_path.to_string())),
+                _ => {}
+            }
+        }
+        got.sort();
+        let expected_w = match model_key_warnings(p, false) {
+            Ok(w) => w,
+            Err(e) => return Err(fail("harness-model", json!({"model_error": format!("{:?}", e)}))),
+        };
+        st.observations += 1;
+        st.warnings_expected = expected_w.len() as u64;
+        if got != expected_w {
+            let missing: Vec<_> = expected_w.iter().filter(|w| !got.contains(w)).map(|w| format!("{:?}", w)).collect();
+            let extra: Vec<_> = got.iter().filter(|w| !expected_w.contains(w)).map(|w| format!("{:?}", w)).collect();
+            return Err(fail(
+                "diagnostics-mismatch",
+                json!({
+                    "expected": expected_w.iter().map(|w| format!("{:?}", w)).collect::<Vec<_>>(),
+                    "actual": got.iter().map(|w| format!("{:?}", w)).collect::<Vec<_>>(),
+                    "not_reported": missing, "unexpected_or_duplicated": extra,
+                    "project": ser::project_to_json(p),
+                }),
+            ));
+        }
+    }
+
     for ns in p.ns_list() {
         let nsr = ns.as_deref();
         let Some(def) = p.file(nsr, p.default_locale()) else { continue };
@@ -648,7 +688,7 @@ pub fn check_project(p: &Project, opts: &CheckOpts, dir: &Path, t: &mut Tape) ->
                             "expected_vars": union.vars, "actual_vars": gv,
                             "expected_comps": union.comps, "actual_comps": gc,
                             "expected_counts": format!("{:?}", ecounts), "actual_counts": format!("{:?}", gcounts),
-                            "project": ser::project_to_json(p),
+                            "project": ser::project_to_json(p), "ast": format!("{:?}", p.files),
                         }),
                     ));
                 }
